@@ -2,9 +2,20 @@
    Statements only.  Every theorem is for ALL operand values, ALL states and EVERY
    admissible report order [prec] of coinciding faults. *)
 From Coq Require Import List ZArith NArith Floats Bool.
-From UEC Require Import Base.I64 Base.F64 Push.Stack Push.Syntax Push.Spec Push.SpecProps Push.Run Push.Clauses.
+From UEC Require Import Base.I64 Base.F64 Push.Stack Push.Syntax Push.Spec Push.SpecProps Push.Run Push.RunProps Push.Clauses Push.Impl Push.Refine Push.RunRefine.
 Import ListNotations.
 Local Open Scope Z_scope.
+
+(* the instructions as the Rust composes them (Impl.v: top / pop / push / discard threaded through the
+   helper combinators) compute exactly the semantics table, on every well-formed state *)
+Theorem C01_refine : forall p s, wf s -> Impl.perform_prog p s = Spec.perform_prog code_prec p s.
+Proof. exact refine_prog. Qed.
+Print Assumptions C01_refine.
+
+(* and so does the interpreter loop, for every program, all limits, from every well-formed state *)
+Theorem C01_run : forall s, wf s -> irun s = run code_prec s.
+Proof. exact run_refines. Qed.
+Print Assumptions C01_run.
 
 Theorem C01_checked_pow_spec : forall x y : Z, 0 <= y < 4294967296 -> checked_pow x y = chk (x ^ y).
 Proof. exact checked_pow_spec. Qed.
@@ -13,7 +24,7 @@ Print Assumptions C01_checked_pow_spec.
 (* arithmetic is top-op-second and replaces exactly its two operands; a result outside i64 skips the instruction *)
 Theorem C01_arith_perform : forall prec o x y r s,
   elems (ints s) = x :: y :: r ->
-  perform prec (IBin o) s = match ibin_fn o x y with Some v => Ok (ints_to (v :: r) s) | None => Rec s EIntOverflow end.
+  Spec.perform prec (IBin o) s = match ibin_fn o x y with Some v => Ok (ints_to (v :: r) s) | None => Rec s EIntOverflow end.
 Proof. exact ibin_perform. Qed.
 Print Assumptions C01_arith_perform.
 
@@ -33,7 +44,7 @@ Proof. exact ibin_in_range. Qed.
 Print Assumptions C01_arith_never_wraps.
 
 Theorem C01_arith_underflow : forall prec o s,
-  (ssize (ints s) < 2)%N -> exists a b, perform prec (IBin o) s = Rec s (EUnderflow a b).
+  (ssize (ints s) < 2)%N -> exists a b, Spec.perform prec (IBin o) s = Rec s (EUnderflow a b).
 Proof. exact ibin_underflow. Qed.
 Print Assumptions C01_arith_underflow.
 
@@ -49,7 +60,7 @@ Proof. exact isat_table. Qed.
 Print Assumptions C01_negate_abs_saturate.
 
 Theorem C01_saturating_perform : forall prec o x r s,
-  elems (ints s) = x :: r -> perform prec (ISat o) s = Ok (ints_to (isat_fn o x :: r) s).
+  elems (ints s) = x :: r -> Spec.perform prec (ISat o) s = Ok (ints_to (isat_fn o x :: r) s).
 Proof. exact isat_perform. Qed.
 Print Assumptions C01_saturating_perform.
 
@@ -68,7 +79,7 @@ Print Assumptions C01_parity_of_negatives.
 
 Theorem C01_predicate_consumes_operand : forall prec p x r s,
   elems (ints s) = x :: r -> full (bools s) = false ->
-  perform prec (IPred p) s = Ok (pushB (ipred_fn p x) (ints_to r s)).
+  Spec.perform prec (IPred p) s = Ok (pushB (ipred_fn p x) (ints_to r s)).
 Proof. exact ipred_perform. Qed.
 Print Assumptions C01_predicate_consumes_operand.
 
@@ -81,45 +92,45 @@ Print Assumptions C01_comparisons_mathematical.
 
 Theorem C01_int_comparison_consumes_both : forall prec c x y r s,
   elems (ints s) = x :: y :: r -> full (bools s) = false ->
-  perform prec (ICmp c) s = Ok (pushB (icmp_fn c x y) (ints_to r s)).
+  Spec.perform prec (ICmp c) s = Ok (pushB (icmp_fn c x y) (ints_to r s)).
 Proof. exact icmp_perform. Qed.
 Print Assumptions C01_int_comparison_consumes_both.
 
 Theorem C01_float_comparison_consumes_both : forall prec c x y r s,
   elems (floats s) = x :: y :: r -> full (bools s) = false ->
-  perform prec (FCmp c) s = Ok (pushB (fcmp_fn c x y) (floats_to r s)).
+  Spec.perform prec (FCmp c) s = Ok (pushB (fcmp_fn c x y) (floats_to r s)).
 Proof. exact fcmp_perform. Qed.
 Print Assumptions C01_float_comparison_consumes_both.
 
 Theorem C01_float_arith_perform : forall prec o x y r s,
-  elems (floats s) = x :: y :: r -> perform prec (FBin o) s = Ok (floats_to (fbin_fn o x y :: r) s).
+  elems (floats s) = x :: y :: r -> Spec.perform prec (FBin o) s = Ok (floats_to (fbin_fn o x y :: r) s).
 Proof. exact fbin_perform. Qed.
 Print Assumptions C01_float_arith_perform.
 
 Theorem C01_bool_perform : forall prec o x y r s,
-  elems (bools s) = x :: y :: r -> perform prec (BBin o) s = Ok (bools_to (bbin_fn o x y :: r) s).
+  elems (bools s) = x :: y :: r -> Spec.perform prec (BBin o) s = Ok (bools_to (bbin_fn o x y :: r) s).
 Proof. exact bbin_perform. Qed.
 Print Assumptions C01_bool_perform.
 
 Theorem C01_clamp : forall prec x y z r s,
   elems (ints s) = x :: y :: z :: r ->
-  perform prec Clamp s = Ok (ints_to (clamp_fn x y z :: r) s) /\
+  Spec.perform prec Clamp s = Ok (ints_to (clamp_fn x y z :: r) s) /\
   Z.min y z <= clamp_fn x y z <= Z.max y z /\ (Z.min y z <= x <= Z.max y z -> clamp_fn x y z = x).
 Proof. exact clamp_perform. Qed.
 Print Assumptions C01_clamp.
 
 Theorem C01_when_table : forall prec s,
-  perform prec When s = when_table (cond_of (elems (bools s))) (has_block s) s.
+  Spec.perform prec When s = when_table (cond_of (elems (bools s))) (has_block s) s.
 Proof. exact when_is_table. Qed.
 Print Assumptions C01_when_table.
 
 Theorem C01_unless_table : forall prec s,
-  perform prec Unless s = unless_table (cond_of (elems (bools s))) (has_block s) s.
+  Spec.perform prec Unless s = unless_table (cond_of (elems (bools s))) (has_block s) s.
 Proof. exact unless_is_table. Qed.
 Print Assumptions C01_unless_table.
 
 Theorem C01_ifelse_table : forall prec s,
-  perform prec IfElse s =
+  Spec.perform prec IfElse s =
   match cond_of (elems (bools s)), elems (exec s) with
   | CTrue, t :: _ :: r => Ok (exec_to (t :: r) (pop_bool s))
   | CFalse, _ :: e :: r => Ok (exec_to (e :: r) (pop_bool s))
@@ -132,20 +143,20 @@ Print Assumptions C01_ifelse_table.
 
 Theorem C01_block_unfolds_in_order : forall prec l s,
   (N.of_nat (length l) + ssize (exec s) <= smax (exec s))%N ->
-  perform_prog prec (PB l) s = Ok (exec_to (l ++ elems (exec s)) s).
+  Spec.perform_prog prec (PB l) s = Ok (exec_to (l ++ elems (exec s)) s).
 Proof. exact block_unfolds. Qed.
 Print Assumptions C01_block_unfolds_in_order.
 
 Theorem C01_front_to_back : forall prec p r s n,
   elems (exec s) = p :: r ->
   step prec (Running s n) =
-  match perform_prog prec p (exec_to r s) with
+  match Spec.perform_prog prec p (exec_to r s) with
   | Ok s' | Rec s' _ => Running s' (n + 1) | Fatal s' e => Failed s' e n | Panic => Panicked end.
 Proof. exact step_front_to_back. Qed.
 Print Assumptions C01_front_to_back.
 
 Theorem C01_input_var_is_its_literal : forall prec n l s,
-  lookup n (inputs s) = Some l -> perform prec (InputVar n) s = perform prec (lit_instr l) s.
+  lookup n (inputs s) = Some l -> Spec.perform prec (InputVar n) s = Spec.perform prec (lit_instr l) s.
 Proof. exact input_var_is_literal. Qed.
 Print Assumptions C01_input_var_is_its_literal.
 
